@@ -446,6 +446,8 @@ def d_macro_dep(edge):
             return False, ""
         if edge.kind in ("K1", "K3"):
             return True, "internal consistency check of tokio::select! (independent of input)"
+    if bt and bt[0] in ("core::PartialEq", "core::Eq", "core::Hash", "core::Clone", "core::Debug", "core::PartialOrd", "core::Ord", "core::Default"):
+        return True, "compiler-generated code of #[derive(%s)]" % bt[0].split("::")[1]
     for m in bt:
         krate = m.split("::", 1)[0]
         if krate in TRUSTED_MACRO_CRATES:
@@ -762,6 +764,9 @@ def classify(fn, edge):
         ok, why = g_opt(fn, edge)
         if ok:
             return True, why, "G-opt"
+        ok, why = g_arity(fn, edge)
+        if ok:
+            return True, why, "G-arity"
     if edge.kind == "K3":
         ok, why = g_const(fn, edge)
         if ok:
@@ -771,7 +776,9 @@ def classify(fn, edge):
             if ok:
                 return True, why, "G-cmp"
         if edge.sub == "BoundsCheck":
-            pass
+            ok, why = g_slice_len(fn, edge)
+            if ok:
+                return True, why, "G-len"
     if edge.kind == "K4":
         cls = edge.sub.split(":")[0]
         if cls in K4_INFO_ONLY:
@@ -923,3 +930,119 @@ def evaluate_scope(chk, prog, scope_keys, rule="P", crates=("redproxy_rs",), ski
                         "if the value can be chosen by a peer or the configuration this %s" % (
                             what, root, f.path, (" (" + why + ")") if why else "", consequence))
     return n_edges
+
+
+# ---------------------------------------------------------------------------- arity guards
+
+def _len_eq_guards(fn):
+    """[(buffer sig, N, switch_bb, target_bb)]: on that edge len(sig) == N (or >= N for Ge/Gt forms)"""
+    from .bytebudget import bufops
+    out = []
+    bo = bufops(fn)
+    for (gs, sb, tb, lb, lc) in bo.guards:
+        if len(lb) == 1 and 1 in lb:
+            out.append((gs, lb[1], sb, tb))
+    return out
+
+
+def _iter_source(fn, it_local, depth=8):
+    """for an iterator temp: the collection it was made from (IntoIterator::into_iter / iter())"""
+    tr = fn.trace(it_local)
+    for k, info in tr:
+        if k == "call" and re.search(r"IntoIterator::into_iter$|::into_iter$|slice::<impl \[T\]>::iter$|Vec::<T, A>::iter$", info.path or "") and info.args:
+            return info
+    return None
+
+
+def g_arity(fn, edge):
+    """`iter.next().unwrap()` as the k-th next() on an iterator over a collection whose length is fixed by a dominating guard"""
+    c = edge.call
+    if not c.args:
+        return False, ""
+    prod = fn.def_call(op_base(c.args[0]))
+    if prod is None or not re.search(r"iter::traits::iterator::Iterator::next$", prod.path or "") or not prod.args:
+        return False, ""
+    it_sig, _ = resolve_place(fn, op_base(prod.args[0]))
+    if not it_sig:
+        return False, ""
+    # k = number of next() calls on the same iterator that dominate this one (inclusive)
+    k = 0
+    for x in fn.calls:
+        if re.search(r"iter::traits::iterator::Iterator::next$", x.path or "") and x.args:
+            s2, _ = resolve_place(fn, op_base(x.args[0]))
+            if s2 == it_sig and (x is prod or fn.dominates(x.bb, prod.bb)):
+                k += 1
+    # the iterator's collection
+    itl = int(it_sig.split("@")[1].split(".")[0]) if "@" in it_sig else None
+    if itl is None:
+        return False, ""
+    src = _iter_source(fn, itl)
+    if src is None:
+        return False, ""
+    from .bytebudget import buf_sig
+    coll = buf_sig(fn, src.args[0]) or resolve_place(fn, op_base(src.args[0]))[0]
+    if not coll:
+        return False, ""
+    guards = _len_eq_guards(fn)
+
+    def guarded(sig):
+        for (gs, n, sb, tb) in guards:
+            if gs == sig and n >= k and edge_dominates(fn, sb, tb, edge.bb):
+                return n
+        return None
+
+    n = guarded(coll)
+    if n is not None:
+        return True, "%d-th next() on an iterator over %s whose length >= %d is established on a dominating edge" % (k, pretty_sig(coll), n)
+    # collection filled by one push per element of a guarded slice
+    cl = int(coll.split("@")[1].split(".")[0]) if "@" in coll else None
+    if cl is not None:
+        pushes = [x for x in fn.calls if re.search(r"Vec::<T, A>::push$", x.path or "") and x.args and resolve_place(fn, op_base(x.args[0]))[0] == coll]
+        others = [x for x in fn.calls if x.args and re.search(r"Vec::<T, A>::(pop|remove|clear|truncate|drain|insert|swap_remove|retain)$", x.path or "")
+                  and resolve_place(fn, op_base(x.args[0]))[0] == coll]
+        if pushes and not others:
+            for pz in pushes:
+                # the push sits in a loop driven by next() on an iterator over a guarded slice
+                for x in fn.calls:
+                    if re.search(r"iter::traits::iterator::Iterator::next$", x.path or "") and x.args and fn.dominates(x.bb, pz.bb) and pz.bb in fn.reach_from([x.bb]) and x.bb in fn.reach_from([pz.bb]):
+                        s3, _ = resolve_place(fn, op_base(x.args[0]))
+                        l3 = int(s3.split("@")[1].split(".")[0]) if s3 and "@" in s3 else None
+                        if l3 is None:
+                            continue
+                        src3 = _iter_source(fn, l3)
+                        if src3 is None:
+                            continue
+                        c3 = buf_sig(fn, src3.args[0]) or resolve_place(fn, op_base(src3.args[0]))[0]
+                        n = guarded(c3) if c3 else None
+                        if n is not None:
+                            return True, "%d-th next() over %s, which holds one element per element of %s (length >= %d on a dominating edge)" % (
+                                k, pretty_sig(coll), pretty_sig(c3), n)
+    return False, ""
+
+
+def g_slice_len(fn, edge):
+    """slice[const k] where len(slice) >= k+1 is established by a dominating comparison on slice.len()"""
+    t = edge.term
+    ops = t.get("ops", [])
+    if len(ops) != 2:
+        return False, ""
+    ix = upper_bound(fn, ops[1])
+    if ix is None:
+        return False, ""
+    l = op_base(ops[0])
+    if l is None:
+        return False, ""
+    d = fn.single_def(l)
+    if not d or d[1] == "term":
+        return False, ""
+    rv = d[2]
+    sig = None
+    if rv["k"] == "unop" and rv["op"] in ("PtrMetadata",):
+        from .bytebudget import buf_sig
+        sig = buf_sig(fn, rv["a"]) or resolve_place(fn, op_base(rv["a"]))[0]
+    if not sig:
+        return False, ""
+    for (gs, n, sb, tb) in _len_eq_guards(fn):
+        if gs == sig and n >= ix + 1 and edge_dominates(fn, sb, tb, edge.bb):
+            return True, "len(%s) >= %d established on a dominating edge covers index %d" % (pretty_sig(sig), n, ix)
+    return False, ""
